@@ -1,4 +1,7 @@
-(* C10 entry: which < 50 packing / marks (Model/Kafka.v), which >= 50 the frontier clause on pipeline traces *)
-From Verif Require Import Base.Sx Model.Kafka Model.PipeEntry.
+(* C10 entry: which < 50 packing / marks (Model/Kafka.v; which = 5 the consumer group end to end, Model/KafkaGroup.v),
+   which >= 50 the frontier clause on pipeline traces *)
+From Verif Require Import Base.Sx Model.Kafka Model.KafkaGroup Model.PipeEntry.
 Definition c10_full_entry (which : Z) (case obs : sx) : verdict :=
-  if 50 <=? which then c10_pipe_entry which case obs else c10_entry which case obs.
+  if 50 <=? which then c10_pipe_entry which case obs
+  else if which =? 5 then c10_group_run case obs
+  else c10_entry which case obs.
